@@ -42,6 +42,10 @@ def boot():
     import warnings
     warnings.filterwarnings('ignore', category=SyntaxWarning)
     warnings.filterwarnings('ignore', category=RuntimeWarning)
+    warnings.filterwarnings('ignore', category=UserWarning)
+    import logging
+    logging.getLogger('matplotlib').setLevel(logging.ERROR)
+    logging.getLogger('matplotlib.font_manager').setLevel(logging.ERROR)
     with quiet():
         import localcider  # noqa
     f = os.path.realpath(localcider.__file__)
@@ -234,7 +238,7 @@ def jsonable(x):
 
 
 def finish(prop, tier, seed, acc, t0, rule, bounds, exhaustive=True, assumptions=(), level="model_checking",
-           min_outcomes=2):
+           min_outcomes=2, replay_fn=None):
     """Write evidence, print KNOWN-FINDING / VIOLATION lines, return the exit code."""
     known = load_known(prop)
     seen_known = {}
@@ -253,6 +257,30 @@ def finish(prop, tier, seed, acc, t0, rule, bounds, exhaustive=True, assumptions
         for h in herr[:3]:
             sys.stderr.write("HARNESS ERROR: %s\n" % h)
         rc = 2
+    # every new violation is replayed (twice) through the explorer-free replay path before it is believed
+    confirmed = 0
+    if replay_fn is None:
+        try:
+            import importlib
+            replay_fn = importlib.import_module("vmc.props." + prop.lower()).replay
+        except Exception:  # noqa
+            replay_fn = None
+    if replay_fn is not None:
+        for k in sorted(new)[:12]:
+            try:
+                with quiet():
+                    k1 = sorted(x["key"] for x in replay_fn(new[k]["case"]))
+                    k2 = sorted(x["key"] for x in replay_fn(new[k]["case"]))
+            except Exception as e:  # noqa
+                k1, k2 = ["<replay raised %r>" % e], None
+            if k1 != k2:
+                sys.stderr.write("HARNESS ERROR: replaying violation %s twice gave different results (%r vs %r): "
+                                 "uncontrolled nondeterminism\n" % (k, k1, k2))
+                rc = 2
+            elif k in k1:
+                confirmed += 1
+            else:
+                sys.stderr.write("NOTE: violation %s was not reproduced by the stand-alone replay (got %r)\n" % (k, k1))
     rdir = os.path.join(VERIF, "replays", prop)
     for i, k in enumerate(sorted(new)):
         v = new[k]
@@ -292,6 +320,7 @@ def finish(prop, tier, seed, acc, t0, rule, bounds, exhaustive=True, assumptions
         "known_findings_seen": sorted(seen_known),
         "new_violation_keys": sorted(new)[:50],
         "violating_cases_total": acc.nviol,
+        "new_violations_confirmed_by_replay": confirmed,
         "extra": extra,
         "workers": NPROC,
     }
